@@ -151,6 +151,9 @@ def msg_case(ctx, r):
     ctx.evaluations += 1
     replay = {'text': text, 'game': game}
     if 'panic' in c or 'abort' in c: ctx.inconcl('compile crash (C04)'); return
+    if unknown and default == 'nosuch' and all(i in table for i in range(tlen if 'table_len' in text else max(table) + 1)):
+        # the unknown name is in a `default` entry that no table slot uses: nothing that refers to it is written; not judged
+        ctx.count('msg_unknown_default_unused'); return
     if unknown:
         if c.get('ok'): ctx.violation('numbering:msg:unknown-name-accepted', 'table refers to a script that does not exist', replay)
         elif core.has_error_diag(c.get('diag', '')): ctx.count('expected_errors')
